@@ -33,6 +33,10 @@ pub enum Source {
     /// proof assembled from fresh group elements and random scalars; `rounds_delta` adds/removes
     /// rounds relative to log2(bits*m)
     Crafted { seed: u64, rounds_delta: i32 },
+    /// proof made by the simulator's own dishonest prover (forge.rs): the protocol mirrored by hand,
+    /// the inner-product argument run over `extra_rounds` more folding rounds than the statement has;
+    /// kind 0 = the witness's own in-range values, 1 = 2^bits + small, 2 = -1, 3 = random scalars
+    Forged { seed: u64, extra_rounds: usize, kind: u8 },
 }
 
 #[derive(Clone, Debug, Serialize, Deserialize)]
@@ -94,6 +98,53 @@ fn make_msg_inner<G: Group>(sc: &Scenario, ms: &MemberSpec) -> Option<Msg<G>> {
                 }
             }
             Some(msg)
+        },
+        Source::Forged { seed, extra_rounds, kind } => {
+            let mut r = SimRng::new(*seed ^ 0x5eed);
+            let promises: Vec<Option<u64>> = (0..ms.m)
+                .map(|j| ms.wit.promises.get(j).copied().flatten().filter(|p| *p <= ms.wit.values[j]))
+                .collect();
+            let mask = if sc.bits >= 64 { u64::MAX } else { (1u64 << sc.bits) - 1 };
+            let mut values = Vec::new();
+            let mut bits_of = Vec::new();
+            for j in 0..ms.m {
+                // slot 0 carries the dishonest value, the others stay honest
+                let k = if j == 0 { *kind } else { 0 };
+                let honest = ms.wit.values[j] & mask;
+                let p = promises[j].unwrap_or(0).min(honest);
+                match k {
+                    0 => {
+                        values.push(Scalar::from(honest));
+                        bits_of.push(honest - p);
+                    },
+                    1 => {
+                        let small = r.below(16);
+                        values.push(Scalar::from((1u128 << sc.bits) + small as u128 + p as u128));
+                        bits_of.push(small & mask);
+                    },
+                    2 => {
+                        values.push(-Scalar::ONE);
+                        bits_of.push(mask);
+                    },
+                    _ => {
+                        values.push(r.scalar());
+                        bits_of.push(r.next_u64() & mask);
+                    },
+                }
+            }
+            let promises: Vec<Option<u64>> = (0..ms.m).map(|j| promises[j].map(|p| p.min(ms.wit.values[j] & mask))).collect();
+            crate::forge::forge::<G>(&crate::forge::ForgeSpec {
+                bits: sc.bits,
+                m: ms.m,
+                cap: ms.cap,
+                ext: sc.ext,
+                ctx: &ms.ctx,
+                values,
+                bits_of,
+                promises,
+                extra_rounds: *extra_rounds,
+                seed: *seed,
+            })
         },
         Source::Crafted { seed, rounds_delta } => {
             let mut r = SimRng::new(*seed);
@@ -288,6 +339,7 @@ fn run_ristretto(sc: &Scenario, st: &mut RunStats) -> Vec<Violation> {
     } else {
         st.probe("rejected");
     }
+    forged_probes(sc, lib_ok, st);
     if lib_ok != ref_ok {
         out.push(Violation::new(
             if lib_ok { "accepted_where_reference_rejects" } else { "rejected_where_reference_accepts" },
@@ -308,11 +360,29 @@ fn run_ristretto(sc: &Scenario, st: &mut RunStats) -> Vec<Violation> {
     out
 }
 
+/// reach of the dishonest prover: its ordinary-round, in-range proofs are accepted (the mirror is
+/// faithful to the protocol as implemented), its surplus-round forgeries were delivered and refused
+fn forged_probes(sc: &Scenario, lib_ok: bool, st: &mut RunStats) {
+    if lib_ok && sc.members.iter().all(|m| matches!(m.source, Source::Forged { extra_rounds: 0, kind: 0, .. })) {
+        st.probe("forger_faithful_accepted");
+        if sc.members.iter().any(|m| m.m >= 2) {
+            st.probe("forger_faithful_accepted_aggregated");
+        }
+        if sc.ext >= 2 {
+            st.probe("forger_faithful_accepted_extended");
+        }
+    }
+    if !lib_ok && sc.members.len() == 1 && matches!(sc.members[0].source, Source::Forged { extra_rounds, .. } if extra_rounds > 0) {
+        st.probe("surplus_round_forgery_refused");
+    }
+}
+
 fn src_name(s: &Source) -> &'static str {
     match s {
         Source::Honest => "honest",
         Source::Faulted { .. } => "faulted",
         Source::Crafted { .. } => "crafted",
+        Source::Forged { .. } => "forged",
     }
 }
 
@@ -428,6 +498,7 @@ fn run_free(sc: &Scenario, st: &mut RunStats) -> Vec<Violation> {
     } else {
         st.probe("rejected");
     }
+    forged_probes(sc, lib_ok, st);
     let key = srcs.join("+");
     if let Some(why) = any_shape {
         st.probe("shape_rejection_expected");
@@ -851,6 +922,11 @@ impl Check for C02 {
             let wit = WitnessSpec::generate(rng, &c, true);
             let source = match rng.below(10) {
                 0 | 1 => Source::Honest,
+                6 => {
+                    let extra_rounds = *rng.pick(&[0usize, 1, 1, 2]);
+                    let kind = if extra_rounds == 0 { *rng.pick(&[0u8, 0, 0, 1, 3]) } else { *rng.pick(&[0u8, 1, 2, 3]) };
+                    Source::Forged { seed: rng.next_u64(), extra_rounds, kind }
+                },
                 2..=5 => Source::Faulted { faults: gen_faults(rng, cfg.ext, m, c.rounds(), n_members == 1), fault_seed: rng.next_u64() },
                 _ => Source::Crafted { seed: rng.next_u64(), rounds_delta: *rng.pick(&[0i32, 0, 0, 0, 0, 1, -1]) },
             };
@@ -899,6 +975,14 @@ impl Check for C02 {
                 Source::Faulted { faults, .. } => {
                     for f in faults {
                         st.fault(f.kind());
+                    }
+                },
+                Source::Forged { extra_rounds, kind, .. } => {
+                    st.fault("forged_by_dishonest_prover");
+                    if *extra_rounds > 0 {
+                        st.fault("forged_with_surplus_rounds");
+                    } else if *kind != 0 {
+                        st.fault("forged_out_of_range_ordinary_rounds");
                     }
                 },
                 Source::Crafted { rounds_delta, .. } => {
@@ -977,6 +1061,18 @@ impl Check for C02 {
                     s.members[i].source = Source::Honest;
                     v.push(s);
                 },
+                Source::Forged { seed, extra_rounds, kind } => {
+                    if *extra_rounds > 1 {
+                        let mut s = sc.clone();
+                        s.members[i].source = Source::Forged { seed: *seed, extra_rounds: extra_rounds - 1, kind: *kind };
+                        v.push(s);
+                    }
+                    if *kind > 1 {
+                        let mut s = sc.clone();
+                        s.members[i].source = Source::Forged { seed: *seed, extra_rounds: *extra_rounds, kind: 1 };
+                        v.push(s);
+                    }
+                },
                 Source::Honest => {},
             }
             if m.cap > m.m {
@@ -1030,6 +1126,8 @@ impl Check for C02 {
             "nonzero_promise", "ext_1", "ext_2", "ext_3", "ext_4", "ext_5", "ext_6", "flip_bit", "replace_scalar",
             "replace_point", "drop_round", "add_round", "replace_commitment", "promise", "swap_commitments", "bits",
             "generator_h", "generator_g", "retag_extension", "honest_member_followed_by_altered_duplicate", "aggregated_statement_carrying_a_seed", "tuned_cancelling_pair_resubmitted", "tuned_pair_one_member_first", "caller_supplied_related_generators",
+            "forged_by_dishonest_prover", "forged_with_surplus_rounds", "forger_faithful_accepted", "forger_faithful_accepted_aggregated",
+            "forger_faithful_accepted_extended", "surplus_round_forgery_refused",
         ]
     }
 }
